@@ -22,6 +22,9 @@
 (*   syncmethod     n routines x m calls of a method of one synchronized   *)
 (*                  flavor instance that updates a variable through        *)
 (*                  with-slots: all calls return, the variable is n*m      *)
+(*   withslots      n routines, each inside one with-slots body for all its *)
+(*                  turns, increment the slot in the order a token goes    *)
+(*                  round a ring of channels: the slot is n*m              *)
 (*   gencache       a call held at the yield point of the generic function   *)
 (*                  while the method is redefined (GenCache.tla)           *)
 (*   gencache2      the same with the call held by its own argument, an    *)
@@ -50,6 +53,7 @@ Judge(e) == IF e.st # "ok" THEN "status"
                    [] e.kind = "selectfn" -> IF SelectFnOK(e) THEN "" ELSE "items"
                    [] e.kind = "mutex" -> IF e.x = e.n * e.m THEN "" ELSE "counter"
                    [] e.kind = "syncmethod" -> IF e.x = e.n * e.m THEN "" ELSE "counter"
+                   [] e.kind = "withslots" -> IF e.x = e.n * e.m THEN "" ELSE "counter"
                    [] e.kind = "mutexnest" -> IF e.x = 1 + 2 * e.n * e.m THEN "" ELSE "counter"
                    [] e.kind = "syncinst" -> IF Len(e.slots) = e.n /\ \A k \in 1..e.n : e.slots[k] = e.m THEN "" ELSE "slots"
                    \* GenCache.tla: the held call runs the old or the new method, and once both have returned the new method is the
